@@ -52,6 +52,7 @@ RunResult run_plan(const Plan &plan, const std::string &image_dir, bool keep_tra
   kern.knobs.stick = kn.getd("stick", 0.7);
   kern.knobs.split_p = kn.getd("split_p", 0.3);
   kern.knobs.dir_shuffle_p = kn.getd("dir_shuffle_p", 0.5);
+  kern.knobs.cpu_steps = (uint64_t)kn.geti("cpu_steps", 2000);
   kern.knobs.max_steps = (uint64_t)kn.geti("max_steps", 200000);
   kern.knobs.max_sim_s = kn.geti("max_sim_s", 60LL * 86400);
   kern.knobs.pct = kn.getb("pct", false);
